@@ -64,6 +64,10 @@ def stRelease (s : CacheSt) (p : Nat) (op : COp) : CacheSt :=
            procs := updP s.procs p { s.procs p with cur := none },
            log := s.log ++ [{ proc := p, op := op, ret := (s.procs p).got }] }
 
+/-- a failed open inside `get`: only the attempt counter moves -/
+def stRetry (s : CacheSt) (p : Nat) : CacheSt :=
+  { s with procs := updP s.procs p { s.procs p with tries := (s.procs p).tries + 1 } }
+
 inductive Step (s : CacheSt) : CacheLbl → CacheSt → Prop
   | acquire (p op rest) (hl : s.lock = none) (hc : (s.procs p).cur = none)
       (ht : (s.procs p).todo = op :: rest) : Step s (.acquire p) (stAcquire s p op rest)
@@ -71,6 +75,8 @@ inductive Step (s : CacheSt) : CacheLbl → CacheSt → Prop
       Step s (.access p) (stAccess s p a rest)
   | release (p op) (hl : s.lock = some p) (hp : (s.procs p).pending = [])
       (hc : (s.procs p).cur = some op) : Step s (.release p) (stRelease s p op)
+  | retry (p k rest) (hl : s.lock = some p) (hp : (s.procs p).pending = .read k :: rest)
+      (ht : (s.procs p).tries < maxOpenRetry) : Step s (.retry p) (stRetry s p)
 
 theorem step_of (s s' : CacheSt) (l : CacheLbl) (h : cacheStep s l = some s') : Step s l s' := by
   cases l with
@@ -110,6 +116,16 @@ theorem step_of (s s' : CacheSt) (l : CacheLbl) (h : cacheStep s l = some s') : 
         exact Step.release p op hc.1 hc.2 hcur
       · cases h
     · cases h
+  | retry p =>
+    simp only [cacheStep] at h
+    split at h
+    · rename_i hc
+      split at h
+      · rename_i k rest hp
+        cases h
+        exact Step.retry p k rest hc.1 hp hc.2
+      · cases h
+    · cases h
 
 theorem step_to (s s' : CacheSt) (l : CacheLbl) (h : Step s l s') : cacheStep s l = some s' := by
   cases h with
@@ -117,6 +133,7 @@ theorem step_to (s s' : CacheSt) (l : CacheLbl) (h : Step s l s') : cacheStep s 
   | access p a rest hl hp =>
     cases a <;> simp [cacheStep, hl, hp, stAccess, accApply]
   | release p op hl hp hc => simp [cacheStep, hl, hp, hc, stRelease]
+  | retry p k rest hl hp ht => simp [cacheStep, hl, hp, ht, stRetry]
 
 /-! ### replay -/
 
@@ -219,6 +236,22 @@ theorem inv_step (progs : Nat → List COp) (s s' : CacheSt) (l : CacheLbl)
       simp [specReplay]
     · intro _; rfl
     · intro q op' hq; simp [stRelease] at hq
+  | retry p k rest hl hp ht =>
+    refine ⟨?_, ?_, d, hrep, ?_, ?_⟩
+    · intro q
+      by_cases hq : q = p
+      · subst hq; simpa [stRetry] using hord q
+      · simpa [stRetry, updP_other _ _ _ _ hq] using hord q
+    · intro q
+      by_cases hq : q = p
+      · subst hq; simpa [stRetry] using hcl q
+      · simpa [stRetry, updP_other _ _ _ _ hq] using hcl q
+    · intro h; simp [stRetry, hl] at h
+    · intro q op' hq hcur
+      simp only [stRetry, hl, Option.some.injEq] at hq
+      subst hq
+      simp only [stRetry, updP_same] at hcur
+      simpa [stRetry] using hfold p op' hl hcur
 
 theorem inv_run (progs : Nat → List COp) (ls : List CacheLbl) (s s' : CacheSt)
     (hi : Inv progs s) (h : cacheRun s ls = some s') : Inv progs s' := by
@@ -265,8 +298,14 @@ def lblProc : CacheLbl → Nat
   | .acquire p => p
   | .access p => p
   | .release p => p
+  | .retry p => p
 
-/-- number of transitions an operation list needs: acquire, accesses, release -/
+def isRetry : CacheLbl → Bool
+  | .retry _ => true
+  | _ => false
+
+/-- number of transitions an operation list needs when no open fails: acquire, accesses,
+    release -/
 def cost : List COp → Nat
   | [] => 0
   | op :: ops => (op.accesses.length + 2) + cost ops
@@ -274,33 +313,39 @@ def cost : List COp → Nat
 def mu (s : CacheSt) (p : Nat) : Nat :=
   cost (s.procs p).todo + (s.procs p).pending.length + (if (s.procs p).cur.isSome then 1 else 0)
 
+/-- every step of `p` other than a retry uses up one unit of `mu`; a retry leaves it alone -/
 theorem mu_step (s s' : CacheSt) (l : CacheLbl) (p : Nat) (h : Step s l s') :
-    (if lblProc l = p then 1 else 0) + mu s' p ≤ mu s p := by
+    (if lblProc l = p ∧ isRetry l = false then 1 else 0) + mu s' p ≤ mu s p := by
   cases h with
   | acquire q op rest hl hc ht =>
     by_cases hq : p = q
     · subst hq
-      simp [lblProc, mu, stAcquire, hc, ht, cost]
+      simp [lblProc, isRetry, mu, stAcquire, hc, ht, cost]
       omega
     · have : ¬ q = p := fun h => hq h.symm
       simp [lblProc, mu, stAcquire, updP_other _ _ _ _ hq, this]
   | access q a rest hl hp =>
     by_cases hq : p = q
     · subst hq
-      simp [lblProc, mu, stAccess, hp]
+      simp [lblProc, isRetry, mu, stAccess, hp]
       omega
     · have : ¬ q = p := fun h => hq h.symm
       simp [lblProc, mu, stAccess, updP_other _ _ _ _ hq, this]
   | release q op hl hp hc =>
     by_cases hq : p = q
     · subst hq
-      simp [lblProc, mu, stRelease, hp, hc]
+      simp [lblProc, isRetry, mu, stRelease, hp, hc]
       omega
     · have : ¬ q = p := fun h => hq h.symm
       simp [lblProc, mu, stRelease, updP_other _ _ _ _ hq, this]
+  | retry q k rest hl hp ht =>
+    by_cases hq : p = q
+    · subst hq
+      simp [isRetry, mu, stRetry]
+    · simp [isRetry, mu, stRetry, updP_other _ _ _ _ hq]
 
 theorem mu_run (ls : List CacheLbl) (s s' : CacheSt) (p : Nat) (h : cacheRun s ls = some s') :
-    (ls.filter (fun l => lblProc l == p)).length + mu s' p ≤ mu s p := by
+    (ls.filter (fun l => lblProc l == p && !isRetry l)).length + mu s' p ≤ mu s p := by
   induction ls generalizing s with
   | nil => simp only [cacheRun, Option.some.injEq] at h; subst h; simp
   | cons l ls ih =>
@@ -309,9 +354,174 @@ theorem mu_run (ls : List CacheLbl) (s s' : CacheSt) (p : Nat) (h : cacheRun s l
     · rename_i s1 hs
       have h1 := mu_step s s1 l p (step_of _ _ _ hs)
       have h2 := ih s1 h
+      by_cases hp : lblProc l = p ∧ isRetry l = false
+      · simp [hp] at h1 ⊢; omega
+      · have hp' : ¬ (lblProc l = p ∧ isRetry l = false) := hp
+        simp only [hp, if_false] at h1
+        have : (lblProc l == p && !isRetry l) = false := by
+          cases hr : isRetry l <;> simp_all
+        simp only [List.filter_cons, this]
+        simp only [Bool.false_eq_true, if_false]
+        omega
+    · cases h
+
+/-! ### step bound including the retries: every read may be preceded by at most
+    `maxOpenRetry` failed opens -/
+
+def accCost : CAcc → Nat
+  | .read _ => maxOpenRetry + 1
+  | _ => 1
+
+def pendCost : List CAcc → Nat
+  | [] => 0
+  | a :: as => accCost a + pendCost as
+
+/-- transitions an operation list needs at most: acquire, accesses (a read: up to
+    `maxOpenRetry` retries and the read itself), release -/
+def costR : List COp → Nat
+  | [] => 0
+  | op :: ops => (pendCost op.accesses + 2) + costR ops
+
+/-- what is left of the current critical section, given the failed attempts so far -/
+def pendMu (tries : Nat) : List CAcc → Nat
+  | [] => 0
+  | .read _ :: as => (maxOpenRetry - tries) + 1 + pendCost as
+  | a :: as => accCost a + pendCost as
+
+theorem pendMu_le (t : Nat) (as : List CAcc) : pendMu t as ≤ pendCost as := by
+  cases as with
+  | nil => simp [pendMu, pendCost]
+  | cons a as => cases a <;> simp [pendMu, pendCost, accCost] <;> omega
+
+theorem pendMu_zero (as : List CAcc) : pendMu 0 as = pendCost as := by
+  cases as with
+  | nil => rfl
+  | cons a as => cases a <;> simp [pendMu, pendCost, accCost] <;> omega
+
+theorem pendMu_cons (t : Nat) (a : CAcc) (as : List CAcc) :
+    1 + pendCost as ≤ pendMu t (a :: as) := by
+  cases a <;> simp [pendMu, accCost] <;> omega
+
+def muR (s : CacheSt) (p : Nat) : Nat :=
+  costR (s.procs p).todo + pendMu (s.procs p).tries (s.procs p).pending
+    + (if (s.procs p).cur.isSome then 1 else 0)
+
+theorem muR_step (s s' : CacheSt) (l : CacheLbl) (p : Nat) (h : Step s l s') :
+    (if lblProc l = p then 1 else 0) + muR s' p ≤ muR s p := by
+  cases h with
+  | acquire q op rest hl hc ht =>
+    by_cases hq : p = q
+    · subst hq
+      simp [lblProc, muR, stAcquire, hc, ht, costR, pendMu_zero]
+      omega
+    · have : ¬ q = p := fun h => hq h.symm
+      simp [lblProc, muR, stAcquire, updP_other _ _ _ _ hq, this]
+  | access q a rest hl hp =>
+    by_cases hq : p = q
+    · subst hq
+      have h1 := pendMu_cons (s.procs p).tries a rest
+      have h2 := pendMu_le (s.procs p).tries rest
+      simp [lblProc, muR, stAccess, hp]
+      omega
+    · have : ¬ q = p := fun h => hq h.symm
+      simp [lblProc, muR, stAccess, updP_other _ _ _ _ hq, this]
+  | release q op hl hp hc =>
+    by_cases hq : p = q
+    · subst hq
+      simp [lblProc, muR, stRelease, hp, hc, pendMu]
+      omega
+    · have : ¬ q = p := fun h => hq h.symm
+      simp [lblProc, muR, stRelease, updP_other _ _ _ _ hq, this]
+  | retry q k rest hl hp ht =>
+    by_cases hq : p = q
+    · subst hq
+      simp [lblProc, muR, stRetry, hp, pendMu]
+      omega
+    · have : ¬ q = p := fun h => hq h.symm
+      simp [lblProc, muR, stRetry, updP_other _ _ _ _ hq, this]
+
+theorem muR_run (ls : List CacheLbl) (s s' : CacheSt) (p : Nat) (h : cacheRun s ls = some s') :
+    (ls.filter (fun l => lblProc l == p)).length + muR s' p ≤ muR s p := by
+  induction ls generalizing s with
+  | nil => simp only [cacheRun, Option.some.injEq] at h; subst h; simp
+  | cons l ls ih =>
+    simp only [cacheRun] at h
+    split at h
+    · rename_i s1 hs
+      have h1 := muR_step s s1 l p (step_of _ _ _ hs)
+      have h2 := ih s1 h
       by_cases hp : lblProc l = p
       · simp [hp] at h1 ⊢; omega
       · simp [hp] at h1 ⊢; omega
+    · cases h
+
+/-! ### retries are invisible: simulation "equal up to `tries`" -/
+
+def dropRetries (ls : List CacheLbl) : List CacheLbl :=
+  ls.filter (fun l => match l with | .retry _ => false | _ => true)
+
+/-- same state except for the attempt counters -/
+structure EqvT (s t : CacheSt) : Prop where
+  disk : s.disk = t.disk
+  lock : s.lock = t.lock
+  log : s.log = t.log
+  todo : ∀ p, (s.procs p).todo = (t.procs p).todo
+  pending : ∀ p, (s.procs p).pending = (t.procs p).pending
+  cur : ∀ p, (s.procs p).cur = (t.procs p).cur
+  got : ∀ p, (s.procs p).got = (t.procs p).got
+
+theorem EqvT.refl (s : CacheSt) : EqvT s s :=
+  ⟨rfl, rfl, rfl, fun _ => rfl, fun _ => rfl, fun _ => rfl, fun _ => rfl⟩
+
+/-- a retry step stays in the class; every other step is matched by the same step -/
+theorem eqvT_step (s s' t : CacheSt) (l : CacheLbl) (he : EqvT s t) (h : Step s l s') :
+    (isRetry l = true ∧ EqvT s' t) ∨
+    (isRetry l = false ∧ ∃ t', Step t l t' ∧ EqvT s' t') := by
+  obtain ⟨hd, hk, hg, htd, hpe, hcu, hgo⟩ := he
+  cases h with
+  | acquire p op rest hl hc ht =>
+    refine Or.inr ⟨rfl, _, Step.acquire p op rest (hk ▸ hl) (hcu p ▸ hc) (htd p ▸ ht), ?_⟩
+    refine ⟨hd, rfl, hg, ?_, ?_, ?_, ?_⟩ <;> intro q <;> by_cases hq : q = p <;>
+      simp [stAcquire, updP, hq, htd q, hpe q, hcu q, hgo q]
+  | access p a rest hl hp =>
+    refine Or.inr ⟨rfl, _, Step.access p a rest (hk ▸ hl) (hpe p ▸ hp), ?_⟩
+    refine ⟨?_, hk, hg, ?_, ?_, ?_, ?_⟩
+    · simp [stAccess, hd, hgo p]
+    all_goals
+      intro q
+      by_cases hq : q = p <;> simp [stAccess, updP, hq, hd, htd, hpe q, hcu, hgo]
+  | release p op hl hp hc =>
+    refine Or.inr ⟨rfl, _, Step.release p op (hk ▸ hl) (hpe p ▸ hp) (hcu p ▸ hc), ?_⟩
+    refine ⟨hd, rfl, ?_, ?_, ?_, ?_, ?_⟩
+    · simp [stRelease, hg, hgo p]
+    all_goals
+      intro q
+      by_cases hq : q = p <;> simp [stRelease, updP, hq, htd, hpe, hcu q, hgo]
+  | retry p k rest hl hp ht =>
+    refine Or.inl ⟨rfl, hd, hk, hg, ?_, ?_, ?_, ?_⟩ <;> intro q <;> by_cases hq : q = p <;>
+      simp [stRetry, updP, hq, htd, hpe, hcu, hgo]
+
+theorem eqvT_run (ls : List CacheLbl) (s s' t : CacheSt) (he : EqvT s t)
+    (h : cacheRun s ls = some s') :
+    ∃ t', cacheRun t (dropRetries ls) = some t' ∧ EqvT s' t' := by
+  induction ls generalizing s t with
+  | nil =>
+    simp only [cacheRun, Option.some.injEq] at h
+    exact ⟨t, rfl, h ▸ he⟩
+  | cons l ls ih =>
+    simp only [cacheRun] at h
+    split at h
+    · rename_i s1 hs
+      rcases eqvT_step s s1 t l he (step_of _ _ _ hs) with ⟨hr, he1⟩ | ⟨hr, t1, hst, he1⟩
+      · obtain ⟨t', ht', he'⟩ := ih s1 t he1 h
+        refine ⟨t', ?_, he'⟩
+        cases l <;> simp [isRetry] at hr
+        simpa [dropRetries] using ht'
+      · obtain ⟨t', ht', he'⟩ := ih s1 t1 he1 h
+        refine ⟨t', ?_, he'⟩
+        have hst' := step_to _ _ _ hst
+        cases l <;> simp [isRetry] at hr <;>
+          simpa [dropRetries, cacheRun, hst'] using ht'
     · cases h
 
 end Sk.Cch
